@@ -128,10 +128,10 @@ func (a *arena) firstDiff() int {
 
 // layouts of a proof list; each returns the list plus the arena that backs it.
 const (
-	layoutSeparate = iota // separately allocated, exact capacity
-	layoutContiguous      // sub-slices of one buffer (capacity runs into the next item)
-	layoutSpare           // each item has spare capacity followed by canaries
-	layoutAliased         // equal items alias the same memory
+	layoutSeparate   = iota // separately allocated, exact capacity
+	layoutContiguous        // sub-slices of one buffer (capacity runs into the next item)
+	layoutSpare             // each item has spare capacity followed by canaries
+	layoutAliased           // equal items alias the same memory
 	nLayouts
 )
 
